@@ -8,7 +8,10 @@
 #include <condition_variable>
 #include <mutex>
 #include <thread>
+#include <sys/wait.h>
+#include <unistd.h>
 #include "geom.h"
+#include "draco/metadata/geometry_metadata.h"
 #include "draco/core/verif_hooks.h"
 using namespace draco;
 using namespace vg;
@@ -39,6 +42,24 @@ static std::vector<Job> make_jobs(vrt::Rng &r, int n) {
     Job j;
     j.g = gen_geometry(r, r.coin(2, 3), gp);
     j.o = gen_options(r, j.g);
+    if (r.coin(1, 6)) {
+      // a grid mesh of more than 1000 faces, Edgebreaker with the sub-method left to the encoder, half of them with the predictive (valence) coder
+      // switched off through EncoderOptions::SetSupportedFeature: the encoder's choice depends on ITS options and ITS mesh only
+      const int side = 24 + r.range(0, 6);
+      j.g = grid_mesh(side);
+      j.o = Opt(); j.o.method = 1; j.o.submethod = -1; j.o.es = j.o.ds = r.range(0, 4); j.o.expert = true; j.o.qbits.assign(j.g.pc->num_attributes(), 0);
+      j.o.no_predictive = r.coin();
+    }
+    if (r.coin(1, 4)) {
+      // nested metadata on the geometry (three levels)
+      std::unique_ptr<GeometryMetadata> md(new GeometryMetadata());
+      md->AddEntryInt("job", i);
+      std::unique_ptr<Metadata> l1(new Metadata()), l2(new Metadata());
+      l2->AddEntryString("leaf", "x");
+      l1->AddSubMetadata("l2", std::move(l2));
+      md->AddSubMetadata("l1", std::move(l1));
+      j.g.pc->AddMetadata(std::move(md));
+    }
     // float-valued options (explicit quantisation origin / range) travel through Options' string store: every job has its own values
     if (r.coin()) {
       for (int a = 0; a < j.g.pc->num_attributes(); ++a) {
@@ -146,6 +167,33 @@ static int run_stress(int nthreads, int rounds, uint64_t seed) {
     auto solo_pass = [&] { for (int t = 0; t < nthreads; ++t) for (auto &j : jobs[t]) { auto x = run_job(j); solo[t].insert(solo[t].end(), x.begin(), x.end()); } };
     for (int t = 0; t < nthreads; ++t) jobs[t] = make_jobs(r, 6);
     if (!threads_first) solo_pass();
+    // round 0: the "run alone" reference comes from a freshly forked child (forked before this process has encoded anything or started a thread):
+    // whatever the library fixes per process on first use is fixed there by a single caller, here by whichever thread comes first
+    bool solo_from_child = false;
+    if (threads_first) {
+      int fd[2];
+      if (pipe(fd) == 0) {
+        fflush(nullptr);
+        const pid_t pid = fork();
+        if (pid == 0) {
+          close(fd[0]);
+          solo_pass();
+          for (int t = 0; t < nthreads; ++t) { const int n = (int)solo[t].size(); if (write(fd[1], &n, sizeof n) != sizeof n) _exit(3); if (n && write(fd[1], solo[t].data(), sizeof(int) * n) != (ssize_t)(sizeof(int) * n)) _exit(3); }
+          _exit(0);
+        }
+        close(fd[1]);
+        bool ok = pid > 0;
+        for (int t = 0; t < nthreads && ok; ++t) {
+          int n = 0;
+          ok = read(fd[0], &n, sizeof n) == sizeof n && n >= 0 && n < (1 << 24);
+          if (ok) { solo[t].resize(n); size_t got_b = 0; while (ok && got_b < sizeof(int) * n) { const ssize_t k = read(fd[0], (char *)solo[t].data() + got_b, sizeof(int) * n - got_b); if (k <= 0) ok = false; else got_b += (size_t)k; } }
+        }
+        close(fd[0]);
+        int st = 0; if (pid > 0) waitpid(pid, &st, 0);
+        solo_from_child = ok && WIFEXITED(st) && WEXITSTATUS(st) == 0;
+        if (!solo_from_child) for (auto &x : solo) x.clear();
+      }
+    }
     std::vector<std::thread> th;
     std::atomic<int> go{0};
     for (int t = 0; t < nthreads; ++t)
@@ -159,7 +207,7 @@ static int run_stress(int nthreads, int rounds, uint64_t seed) {
       });
     go = 1;
     for (auto &x : th) x.join();
-    if (threads_first) solo_pass();
+    if (threads_first && !solo_from_child) solo_pass();
     for (int t = 0; t < nthreads; ++t) out.begin("Thread").s("mode", "stress").arr("sched", std::vector<int>{nthreads}).i("thread", t).arr("solo", solo[t]).arr("got", got[t]).end();
     ++n;
   }
